@@ -60,8 +60,10 @@ class MolecularContainer:
 
     def top_up_conformations(self) -> None:
         """Makes sure that all atoms are present in all conformations."""
+        # one reference atom per atom label AND residue type, so that an
+        # alt-loc/model point mutant cannot shadow the atoms of the other type
         ref_atoms = {
-            atom.residue_label: atom
+            (atom.residue_label, atom.res_name): atom
             for name in reversed(self.conformation_names)
             for atom in self.conformations[name].atoms
         }
